@@ -1,12 +1,15 @@
+\* thorough: two front ends, clocks 0..2
 CONSTANTS
-  Certs = {"x1", "x2", "p1", "p2"}
-  Precerts = {"p1", "p2"}
-  MaxClock = 3
-  MaxTree = 4
+  Certs = {"x1", "p1"}
+  Precerts = {"p1"}
+  MaxClock = 2
+  MaxTree = 2
+  FrontEnds = {"A", "B"}
+  CacheWriteFirst = FALSE
   Depth = 0
 INIT Init
 NEXT MCNext
-VIEW StateView
-INVARIANTS TypeOK STHFaithful DupStable SCTBindsStored SingleIndex QueueSound
-PROPERTIES AppendOnly
+VIEW ExhaustiveView
+INVARIANTS TypeOK STHFaithful STHVerifies SignedHeadCoherent DupStable SCTBindsStored SingleIndex QueueSound
+PROPERTIES STHStep AppendOnly StoredNeverRestamped DupIgnoresClock SCTOnlyOn200 FailedRequestLeavesNothing
 CHECK_DEADLOCK FALSE
